@@ -47,7 +47,7 @@ Definition satb (v : pyval) : bool :=
 Definition val_enum (rec : node -> loc -> list (loc * hkind)) (v : node) (lc' : loc)
   : list (loc * hkind) :=
   if is_container v then rec v lc'
-  else if o_values o && satb (key_val v) then [(lc', HVal)] else [].
+  else if o_values o && satb (key_val v) then [(lc', HValue)] else [].
 
 (* the leaf descendants of a node, as locations *)
 Fixpoint leaves (n : node) (lc : loc) {struct n} : list loc :=
